@@ -677,7 +677,17 @@ class LazyStackedTensorDict(TensorDictBase):
             cursor_incr = 1
             # if idx is None:
             #     idx = True
-            if idx is None or idx is True:
+            if (
+                idx is None
+                or idx is True
+                or (
+                    # a 0-dim True mask adds a dim like None does (it is not a number)
+                    isinstance(idx, torch.Tensor)
+                    and idx.dtype == torch.bool
+                    and idx.ndim == 0
+                    and bool(idx)
+                )
+            ):
                 out.append(None)
                 num_none += cursor <= self.stack_dim
                 continue
